@@ -24,6 +24,117 @@ def build_m2c():
     return exe, drv
 
 
+TABLE_DRIVER = r"""
+#include <stdio.h>
+#include <stdlib.h>
+#include <string.h>
+#include <stdint.h>
+%(decls)s
+static struct { const char *n; int64_t (*f) (void *); } tab[] = { %(tab)s {0, 0} };
+static int hv (int c) { return c <= '9' ? c - '0' : (c | 32) - 'a' + 10; }
+int main (void) {
+  static char line[1 << 16];
+  static unsigned char buf[1 << 15];
+  while (fgets (line, sizeof (line), stdin) != NULL) {
+    char *sp = strchr (line, ' ');
+    size_t n, i;
+    int k;
+    if (sp == NULL) continue;
+    *sp++ = 0;
+    n = strlen (sp);
+    while (n > 0 && (sp[n - 1] == '\n' || sp[n - 1] == ' ')) n--;
+    n /= 2;
+    for (i = 0; i < n; i++) buf[i] = (unsigned char) (hv (sp[2 * i]) * 16 + hv (sp[2 * i + 1]));
+    for (k = 0; tab[k].n != 0 && strcmp (tab[k].n, line) != 0; k++) ;
+    if (tab[k].n == 0) { printf ("F no function %%s\n", line); continue; }
+    tab[k].f (buf);
+    printf ("R ");
+    for (i = 0; i < n; i++) printf ("%%02x", buf[i]);
+    printf ("\n");
+    fflush (stdout);
+  }
+  return 0;
+}
+"""
+
+
+class _Res:
+    def __init__(self, status, buf="", detail=""):
+        self.status, self.buf, self.detail = status, buf, detail
+
+
+def table_pass(ck, tier, m2c):
+    """every row of the C02 instruction table (spec/C02Table.tla: opcode x boundary grid, every operand shape) through the
+    translator: the compiled C must give the value the specification gives"""
+    import c02
+    from concurrent.futures import ThreadPoolExecutor
+    r = vlib.run_tlc("C02Table", "C02Table.cfg", workers=vlib.NCPU, env={"C02_GRID": "full" if tier == "thorough" else "quick"},
+                     heap="8g", timeout=3000)
+    vlib.tlc_ok(r, "C02Table")
+    rows = r.outs
+    P, host_req = c02.build_plan(rows, "quick")
+    c02.resolve_host(host_req)
+    byf = collections.OrderedDict()
+    for c in P.calls:
+        byf.setdefault(c[0], []).append(c)
+    fnames = list(byf)
+    nchunks = max(1, min(len(fnames) // 150 + 1, vlib.NCPU * 2))
+    chunks = [fnames[i::nchunks] for i in range(nchunks)]
+    work = vlib.scratch_dir("c20t-")
+
+    def do(ci):
+        ch = chunks[ci]
+        text = "m: module\n export " + ", ".join(ch) + "\n" + "".join(P.funcs[f] for f in ch) + " endmodule\n"
+        calls = [c for f in ch for c in byf[f]]
+        try:
+            p = subprocess.run([m2c], input=text.encode(), stdout=subprocess.PIPE, stderr=subprocess.PIPE, timeout=120)
+        except subprocess.TimeoutExpired:
+            return len(calls), [(calls[0], "MIR_module2c did not terminate on the table module", text)]
+        if p.returncode != 0:
+            return len(calls), [(calls[0], "mir2c exit %d: %s" % (p.returncode, p.stderr.decode()[-200:]), text)]
+        cfile = os.path.join(work, "t%d.c" % ci); dfile = os.path.join(work, "d%d.c" % ci); exe = os.path.join(work, "t%d.exe" % ci)
+        open(cfile, "w").write(p.stdout.decode("utf-8", "replace"))
+        open(dfile, "w").write(TABLE_DRIVER % {"decls": "".join("extern int64_t %s (void *);\n" % f for f in ch),
+                                               "tab": "".join('{"%s", %s}, ' % (f, f) for f in ch)})
+        rc, o, e = vlib.sh(["gcc", "-O0", "-fwrapv", "-fno-strict-aliasing", "-w", cfile, dfile, "-o", exe, "-lm"], timeout=600)
+        if rc != 0:
+            return len(calls), [(calls[0], "gcc rejected the translation of the table module: " + e[-300:], text)]
+        inp = "".join("%s %s\n" % (c[0], c[1]) for c in calls)
+        try:
+            q = subprocess.run([exe], input=inp.encode(), stdout=subprocess.PIPE, stderr=subprocess.PIPE, timeout=600)
+            outs = [l[2:] for l in q.stdout.decode().split("\n") if l.startswith("R ")]
+        except subprocess.TimeoutExpired:
+            outs = []
+        bad = []
+        for k, c in enumerate(calls):
+            res = _Res("ok", outs[k]) if k < len(outs) else _Res("crash", detail="compiled translation died or hung at call %d" % k)
+            msg = c02.check_call(res, c[2])
+            if msg:
+                bad.append((c, msg, text))
+                if res.status != "ok":
+                    break
+        for f in (cfile, dfile, exe):
+            try:
+                os.unlink(f)
+            except OSError:
+                pass
+        return len(calls), bad
+
+    total = 0
+    allbad = []
+    with ThreadPoolExecutor(max_workers=vlib.NCPU) as ex:
+        for n, bad in ex.map(do, range(len(chunks))):
+            total += n
+            allbad += bad
+    shutil.rmtree(work, ignore_errors=True)
+    for c, msg, text in allbad[:500]:
+        fname, hexbuf, e, row, shape = c
+        ck.violation("mir2c:table:" + c02.finding_key(row, shape, "m2c"), "%s shape=%s: %s" % (json.dumps(row)[:300], shape, msg),
+                     {"row": row, "shape": shape, "func": P.funcs[fname], "buf": hexbuf})
+    ck.setc("table_rows", len(rows)); ck.setc("table_functions", len(P.funcs)); ck.setc("table_executions", total)
+    return total
+
+
 def entry_text(prog):
     t = progs.render_prog(prog, skip_funcs={"g3", "g16"})
     return t.replace(" export main\n", " export entry\n").replace("main: func", "entry: func")
@@ -62,8 +173,9 @@ def translate_and_run(m2c, drv, text, hexbuf, workdir, tag):
 
 
 def run(tier, cases=None):
+    cases_given = cases
     ck = Check(PROP, tier, "model_checking")
-    nprog = 200 if tier == "quick" else 4000
+    nprog = 800 if tier == "quick" else 6000
     if cases is None:
         cases, r = progs.generate(nprog, seed=vlib.seed() + 2000, cfg="MIRProg_c20.cfg")
         ck.setc("states", r.states); ck.setc("transitions", r.states)
@@ -105,10 +217,13 @@ def run(tier, cases=None):
         msg = progs.compare_obs(io, co, nans, "interp", "C")
         if msg:
             ck.violation("mir2c:result", "program %d: %s" % (i, msg), {"case": c, "text": text})
+    ntab = table_pass(ck, tier, m2c) if cases_given is None else 0
     ck.setc("programs", len(cases)); ck.setc("programs_well_defined", st.get("done", 0))
-    ck.setc("outcomes", dict(kinds)); ck.setc("traces_validated_against_impl", nval)
+    ck.setc("outcomes", dict(kinds)); ck.setc("traces_validated_against_impl", nval + ntab)
     ck.setc("rule", "behaviours of MIRProg.tla (single-result vocabulary); each well-defined program is translated by MIR_module2c, "
-                    "compiled by gcc -O0 -fwrapv, run, and compared with MIR_interp (result, caller-owned memory, external-call log)")
+                    "compiled by gcc -O0 -fwrapv, run, and compared with MIR_interp (result, caller-owned memory, external-call log); "
+                    "in addition every row of the C02 instruction table (C02Table.tla, every operand shape) is translated and must give "
+                    "the value the specification gives")
     done = [c for c in cases if c["status"] == "done"]
     if done:
         ck.sample({"mir_text": entry_text(done[0]["prog"]), "result": done[0]["result"]}, maxn=1)
